@@ -201,12 +201,17 @@ func HarnessC03Keys() {
 			if !differ && verifValid(first.den(sets, mask) == other.den(sets, mask)) {
 				continue // same meaning on every dataset: sharing a key is harmless
 			}
+			// Different meaning, identical key under the real hash of these strings. Whether the
+			// keys coincide for every leaf hash (solver, abstract hashes) only classifies the
+			// defect; either way the pair is executed: a chance 64-bit collision among these
+			// 1893 templates has probability ~1e-13, a collision that shows up here is structural.
 			verifAbstractHash(true)
-			same := verifValid(first.expr().cacheKey() == other.expr().cacheKey())
-			verifAbstractHash(false)
-			if !same {
-				continue // a coincidence of the concrete 64-bit hash values, not of the scheme
+			if verifValid(first.expr().cacheKey() == other.expr().cacheKey()) {
+				verifNote("cache keys of two templates with different meaning coincide for every leaf hash")
+			} else {
+				verifNote("cache keys of two templates with different meaning coincide for the real leaf hashes (not for all)")
 			}
+			verifAbstractHash(false)
 			// one path per candidate pair
 			if !verifBool("check-this-pair") {
 				continue
